@@ -72,6 +72,16 @@ P = {
              "independently necessary, and each state becomes one test of the real validator whose expected verdict is "
              "the specification's; random records with any number of deviations are then validated by TLC.",
         ref="DESIGN.md 3 C13"),
+    "C14": dict(
+        level="model_checking", engine="composer+patchcodec",
+        technique="TLA+ RoundTrip invariant and DocToPatches of Composer.tla, decision table PatchCodec.tla; every TLC "
+                  "document / patch / byte shape replayed into PatchesFromDocument, the constructors, FromBytes, Validate "
+                  "and ApplyPatches",
+        text="TLC checks on every document of the model that the derived patches reproduce it; each document is then "
+             "pushed through the real PatchesFromDocument -> Validate -> Bytes/FromBytes -> ApplyPatches chain and "
+             "compared with the specification's document and derived patch list; constructors and byte shapes are "
+             "enumerated by TLC with the specification's verdicts as expected values.",
+        ref="DESIGN.md 3 C14"),
     "C12": dict(
         level="model_checking", engine="applier+composer",
         technique="TLC-enumerated edges of Applier.tla (and Composer.tla) replayed with deep input digests taken before and "
